@@ -18,16 +18,20 @@ add(Contract(
     requires=[("range", "0 <= pos and maximum <= len(string)")],
     ensures=[
         ("fail-shape", "implies(not result.ok, result.pos == 0 and result.lines == 0)", ["C16"]),
+        ("lines-nonneg", "result.lines >= 0", ["C16", "C03"]),
         ("ok-range", "implies(result.ok, pos + 2 <= result.pos and result.pos <= maximum)", ["C09", "C16", "C01"]),
         ("opener", "implies(result.ok, string[pos] == '\"' or string[pos] == \"'\" or string[pos] == '(')", ["C09"]),
         ("closer-matches", "implies(result.ok, (string[pos] == '(' and string[result.pos - 1] == ')') or (string[pos] != '(' and string[result.pos - 1] == string[pos]))", ["C09"]),
         ("lines-counted", "implies(result.ok, result.lines == CountCh(string, pos + 1, result.pos - 1, '\\n'))", ["C16", "C03"]),
         ("closer-unescaped", "implies(result.ok, Escaped(string, pos + 1, result.pos - 1) == 0)", ["C09"]),
+        # the same count, from the start of the string: what a caller that keeps a running line count adds up (no lemma needed there)
+        ("lines-counted-from-string-start", "implies(result.ok, result.lines == CountCh(string, 0, result.pos, '\\n') - CountCh(string, 0, pos, '\\n'))", ["C16", "C03"]),
     ],
     loops={0: {"types": {"code": "optint", "title": "str"},
                "inv": [("pos-range", "start + 1 <= pos and pos <= max(maximum, start + 1) and start == old(pos) and start >= 0 and maximum <= len(string)"),
                        ("marker", "(string[start] == '\"' and marker == 34) or (string[start] == \"'\" and marker == 39) or (string[start] == '(' and marker == 41)"),
-                       ("lines", "lines == CountCh(string, start + 1, pos, '\\n')"),
+                       ("lines", "lines == CountCh(string, start + 1, pos, '\\n') and lines >= 0"),
+                       ("lines-abs", "lines == CountCh(string, 0, pos, '\\n') - CountCh(string, 0, start, '\\n')"),
                        ("not-escaped-here", "pos >= maximum or Escaped(string, start + 1, pos) == 0"),
                        ("result-fresh", "not result.ok and result.pos == 0 and result.lines == 0")],
                "dec": "maximum - pos"}},
@@ -47,6 +51,7 @@ add(Contract(
         # so nothing it consumes may be a line ending
         ("reports-no-lines", "result.lines == 0", ["C03", "C16"]),
         ("consumes-no-line-ending", "implies(result.ok, forall(k, pos, result.pos, string[k] != '\\n'))", ["C03", "C16"]),
+        ("line-count-unchanged-from-string-start", "implies(result.ok, CountCh(string, 0, result.pos, '\\n') == CountCh(string, 0, pos, '\\n'))", ["C03", "C16"]),
         ("angle-form", f"implies(result.ok and {ANGLE}, string[result.pos - 1] == '>' and "
                        "forall(k, pos + 1, result.pos - 1, (string[k] != '<' and string[k] != '>') or string[k - 1] == '\\\\'))", ["C05", "C16"]),
         ("plain-form-has-no-blank", f"implies(result.ok and not {ANGLE}, forall(k, pos, result.pos, string[k] != ' '))", ["C05", "C16"]),
@@ -55,11 +60,13 @@ add(Contract(
     loops={0: {"types": {"code": "optint"},
                "inv": [("pos", "start + 1 <= pos and pos <= max(maximum, start + 1) and start == old(pos) and start >= 0 and maximum <= len(string) and start < len(string) and string[start] == '<'"),
                        ("clean", "forall(k, start + 1, pos, string[k] != '\\n' and ((string[k] != '<' and string[k] != '>') or string[k - 1] == '\\\\'))"),
+                       ("count-abs", "CountCh(string, 0, pos, '\\n') == CountCh(string, 0, start, '\\n')"),
                        ("fresh", "not result.ok and result.pos == 0 and result.lines == 0"), ("lines", "lines == 0")],
                "dec": "maximum - pos"},
            1: {"types": {"code": "optint"},
                "inv": [("pos", "start <= pos and pos <= max(maximum, start) and start == old(pos) and start >= 0 and maximum <= len(string) and not (start < len(string) and string[start] == '<')"),
                        ("level", "0 <= level and level <= 32"),
+                       ("count-abs", "CountCh(string, 0, pos, '\\n') == CountCh(string, 0, start, '\\n')"),
                        ("clean", "forall(k, start, pos, string[k] != ' ' and string[k] != '\\n' and ((string[k] >= ' ' and string[k] != '\\x7f') or (k > start and string[k - 1] == '\\\\')))"),
                        ("fresh", "not result.ok and result.pos == 0 and result.lines == 0"), ("lines", "lines == 0")],
                "dec": "maximum - pos"}},
